@@ -1,4 +1,4 @@
-import FurikoModel.Model.Queue
+import FurikoModel.Model.QueueMid
 import FurikoModel.Driver.Proto
 namespace Furiko.Driver
 open Furiko Furiko.Queue Furiko.WQ
@@ -61,6 +61,11 @@ def queueStep (d : QueueDS) (t : List String) : QueueDS × String :=
   | ["q.notify", "1"] => fin (notifyCtrl d.sys)
   | ["q.flush"] => fin (deliverAll d.sys)
   | ["q.resync"] => fin (resync d.sys)   -- notifications are queued; the Go side runs them at once
+  | ["q.markdel", n] => fin (mutateJob d.sys n (fun j => j))   -- deletionTimestamp set: nothing the queue controller reads
+  | ["q.work", "cfg", k] =>
+    let (s, res) := workConfigMid d.sys (nat! k)
+    let d' := { d with sys := s }
+    (d', s!"{res} calls={callsStr s.calls} {qDigest d'}")
   | ["q.work", which] =>
     let (s, res) := if which = "cfg" then workConfig d.sys else workIndependent d.sys
     let d' := { d with sys := s }
